@@ -306,13 +306,6 @@ class Eups:
         #   read the cached version of product info
         # N.b. we'll do the same for user directories (e.g. ~/.eups) later
         #
-        self.versions = {}
-        neededFlavors = utils.Flavor().getFallbackFlavors(self.flavor, True)
-        if readCache:
-          for p in self.path:
-              self._setProductStack_fromCache(p, neededFlavors)
-        #
-        #
         fallbackList = hooks.config.Eups.fallbackFlavors
         if not isinstance(fallbackList, dict):
             fallbackList = {None : fallbackList}
@@ -320,6 +313,13 @@ class Eups:
             if utils.is_string(fbl):
                 fbl = fbl.split()
             utils.Flavor().setFallbackFlavors(flavor, fbl)
+        #
+        #
+        self.versions = {}
+        neededFlavors = utils.uniq(utils.Flavor().getFallbackFlavors(self.flavor, True))
+        if readCache:
+          for p in self.path:
+              self._setProductStack_fromCache(p, neededFlavors)
         #
         # load up the recognized tags.
         #
@@ -2158,7 +2158,7 @@ The what argument tells us what sort of state is expected (allowed values are de
             self.versions[root].ensureInSync(verbose=self.verbose)
             self.versions[root].assignTag(tag, productName, versionName, self.flavor)
             try:
-                self.versions[root].save(self.flavor)
+                self.versions[root].save(self.versions[root].getFlavors())
             except CacheOutOfSync as e:
                 if self.quiet <= 0:
                     print("Warning: " + str(e), file=utils.stdwarn)
@@ -2249,7 +2249,7 @@ The what argument tells us what sort of state is expected (allowed values are de
             self.versions[eupsPathDir].ensureInSync(verbose=self.verbose)
             if self.versions[eupsPathDir].unassignTag(str(tag), productName, self.flavor):
                 try:
-                    self.versions[eupsPathDir].save(self.flavor)
+                    self.versions[eupsPathDir].save(self.versions[eupsPathDir].getFlavors())
                 except CacheOutOfSync as e:
                     if self.quiet <= 0:
                         print("Warning: " + str(e), file=utils.stdwarn)
@@ -2669,7 +2669,7 @@ The what argument tells us what sort of state is expected (allowed values are de
                     self.versions[eupsPathDir].addProduct(product)
 
                     try:
-                        self.versions[eupsPathDir].save(self.flavor)
+                        self.versions[eupsPathDir].save(self.versions[eupsPathDir].getFlavors())
                     except CacheOutOfSync as e:
                         if self.quiet <= 0:
                             print("Note: " + str(e), file=utils.stdwarn)
@@ -2831,7 +2831,7 @@ The what argument tells us what sort of state is expected (allowed values are de
                                                      product.version)
 
             try:
-                self.versions[eupsPathDir].save(product.flavor)
+                self.versions[eupsPathDir].save(self.versions[eupsPathDir].getFlavors())
             except CacheOutOfSync as e:
                 if self.quiet <= 0:
                     print("Warning: " + str(e), file=utils.stdwarn)
